@@ -1967,6 +1967,34 @@ def none_programs(rng, count):
     return out
 
 
+def declared_ref_programs(rng, count):
+    """A reference to a node that is only DECLARED (unit, no value yet): the host adopts the declared node's unit when it
+    states none (and keeps its own otherwise); both get their numbers later (C17-27)."""
+    out = []
+    for i in range(count):
+        unit = rng.choice(["cm", "m", "s", "kg"])
+        own = rng.choice([None, None, {"cm": "m", "m": "mm", "s": "ms", "kg": "g"}[unit]])
+        kw = rng.choice(["float", "float", "int"]) if own is None else "float"
+        a, b = rng.randint(1, 90), rng.randint(1, 90)
+        grp = rng.random() < 0.4
+        lines = []
+        src = "length"
+        if grp:
+            lines += ["box", "  length %s %s" % (kw, unit)]
+            src = "box.length"
+        else:
+            lines.append("length %s %s" % (kw, unit))
+        lines.append("width %s = {?%s}%s" % (kw, src, (" " + own) if own else ""))
+        lines.append("width = %d" % a)
+        lines.append("%s = %d" % (src, b))
+        expect = {src: (b, unit), "width": (a, own or unit)}
+        if rng.random() < 0.4:       # a second host takes the first one's current value and unit
+            lines.append("depth %s = {?width}" % kw)
+            expect["depth"] = (a, own or unit)
+        out.append(("\n".join(lines) + "\n", expect, "declared-source"))
+    return out
+
+
 def none_run(text):
     from scinumtools.dip import DIP
     try:
@@ -2014,6 +2042,8 @@ def none_judge(ctx, text, expect, form, stream="none"):
 
 def none_stream(ctx, count):
     for text, expect, form in none_programs(ctx.rng, count):
+        none_judge(ctx, text, expect, form)
+    for text, expect, form in declared_ref_programs(ctx.rng, max(10, count // 3)):
         none_judge(ctx, text, expect, form)
 
 
